@@ -820,7 +820,7 @@ func (iv *Inv) discharge(s invSite, reach map[*ssa.Function]*ssa.Function) {
 	}
 	// numeric vetting arguments are keyed by the semantic signature of the operand (function-independent)
 	for i, sk := range iv.semKeys(s) {
-		if os.Getenv("C4E_DEBUG") != "" && i == 0 {
+		if os.Getenv("C4E_DEBUG") != "" && i >= 0 {
 			fmt.Printf("SEM\t%q\t%q\n", key, sk)
 		}
 		if reason, isVetted := vettedSemantic[sk]; isVetted {
@@ -1969,6 +1969,7 @@ var vettedSemantic = map[string]string{
 	"coinsub sub | ops{add,sub} from{<sdk/types.DecCoins>,State.Remains,nil,types.BankKeeper.GetAllBalances()}":                                                                "minus what this sub-distributor already swept into the main account (or took over from an internal state, whose remains were zeroed in the list at the same time): the balance grew by exactly that amount, so the difference stays the un-booked part (C03)",
 	"coinsub sub | ops{add} from{State.Remains,nil,types.BankKeeper.GetAllBalances()}":                                                                                         "main balance minus recorded remains: non-negative exactly when the books match (C03); C03.order guards the one structural way to break it",
 	"coinsub sub | ops{mul,quo,trunc} from{BaseVestingAccount.OriginalVesting,Coin.Amount,Coin.Denom,types.Coins.AmountOf(),types.ContinuousVestingAccount.GetVestingCoins()}": "OriginalVesting minus amount*OV/vesting (truncated): amount <= locked <= vesting by the IsAllLTE guard, so the difference is <= OV (numeric part of C07)",
+	"coinsub sub | ops{mul,sub} from{<sdk/types.DecCoins>,DestinationShare.Share,Destinations.BurnShare,nil}":                                                                  "burn share * inflow is subtracted from what the named shares left: burn share + shares < 1 by CheckIfSharesSumIsBetween0And1, so the remainder stays non-negative (numeric argument of C03/C04, not decided here)",
 	"coinsub sub | ops{mul,sub} from{<sdk/types.DecCoins>,DestinationShare.Share,nil}":                                                                                         "share*inflow is subtracted from the remainder; shares are validated to sum below 1, so the remainder stays non-negative (numeric argument of C03/C04, not decided here) / burn share: same argument as above (burn share + shares < 1 by CheckIfSharesSumIsBetween0And1)",
 	"coinsub sub | ops{} from{BaseVestingAccount.OriginalVesting,Coin.Denom,const:1}":                                                                                          "the one-unit compensation is subtracted only when less than the requested amount was unlocked, which implies OriginalVesting is still positive (numeric part of C07)",
 	"int64 Int64 | ops{} from{Coin.Amount}":                                                                                                                                    "the deferred gauge is registered only under toWithdraw.IsInt64(); the named result it reads is NewCoin(denom, toWithdraw) on the only return that follows",
